@@ -120,11 +120,10 @@ func (t *tr) typeOf(e ast.Expr, en env, want ty) ty {
 		case token.SHL, token.SHR:
 			return t.typeOf(x.X, en, want)
 		}
-		l := t.typeOf(x.X, en, tUnknown)
-		if _, isLit := x.X.(*ast.BasicLit); isLit {
+		if untypedConst(x.X) {
 			return t.typeOf(x.Y, en, want)
 		}
-		return l
+		return t.typeOf(x.X, en, tUnknown)
 	case *ast.CallExpr:
 		if id, ok := x.Fun.(*ast.Ident); ok {
 			if id.Name == "len" {
@@ -183,6 +182,9 @@ func (t *tr) expr(e ast.Expr, en env, want ty, k func(string) string) string {
 		lt := t.typeOf(e, en, want)
 		switch x.Op {
 		case token.SHL, token.SHR:
+			if untypedConst(x.X) && want != tUnknown {
+				lt = want
+			}
 			return t.expr(x.X, en, lt, func(a string) string {
 				return t.expr(x.Y, en, tNat, func(b string) string {
 					if x.Op == token.SHR {
@@ -308,6 +310,19 @@ func (t *tr) expr(e ast.Expr, en env, want ty, k func(string) string) string {
 	return ""
 }
 
+// untypedConst: an expression made of integer literals only (its type comes from the context)
+func untypedConst(e ast.Expr) bool {
+	switch x := e.(type) {
+	case *ast.BasicLit:
+		return true
+	case *ast.ParenExpr:
+		return untypedConst(x.X)
+	case *ast.BinaryExpr:
+		return untypedConst(x.X) && untypedConst(x.Y)
+	}
+	return false
+}
+
 func (t *tr) isByte(e ast.Expr, en env) bool {
 	switch x := e.(type) {
 	case *ast.ParenExpr:
@@ -361,9 +376,11 @@ func (t *tr) cond(e ast.Expr, en env, k func(string) string) string {
 	if !ok {
 		die(t.fset, e, "condition operator "+b.Op.String())
 	}
-	lt := t.typeOf(b.X, en, tUnknown)
-	if _, isLit := b.X.(*ast.BasicLit); isLit {
+	var lt ty
+	if untypedConst(b.X) {
 		lt = t.typeOf(b.Y, en, tUnknown)
+	} else {
+		lt = t.typeOf(b.X, en, tUnknown)
 	}
 	return t.expr(b.X, en, lt, func(a string) string {
 		return t.expr(b.Y, en, lt, func(c string) string { return k("(" + a + " " + op + " " + c + ")") })
